@@ -104,6 +104,9 @@ func genC09(r *vh.Runner) {
 		r.Case(fmt.Sprintf("id-exhaustion/%d", i), map[string]any{"case": i}, func(c *vh.Case) {
 			c.Bubble(func() { exhaustionRun(r, c, i) })
 		})
+		r.Case(fmt.Sprintf("accept-backlog/%d", i), map[string]any{"rep": i}, func(c *vh.Case) {
+			c.Bubble(func() { backlogRun(r, c, i) })
+		})
 	}
 }
 
@@ -666,4 +669,82 @@ func exhaustionRun(r *vh.Runner, c *vh.Case, i int) {
 	r.Count("tubes_opened_and_matched", 128)
 	r.Nontrivial(fmt.Sprintf("exh|%d|%v|%d", i, reliable, parity))
 	_ = opened
+}
+
+// backlogRun: more tubes are requested than the acceptor's backlog holds
+// before anybody accepts; once the acceptor starts, every tube whose creation
+// succeeded is offered exactly once with its id, kind and type, and carries
+// data.
+func backlogRun(r *vh.Runner, c *vh.Case, i int) {
+	rng := vh.NewRand(r.Seed, "c09-backlog", i)
+	mp := newMuxPair(2 * time.Hour)
+	defer mp.stop()
+	nRel, nUnrel := 100+rng.Intn(29), 10+rng.Intn(60) // together more than the backlog of 128
+	type opened struct {
+		t        tubes.Tube
+		reliable bool
+		ttype    tubes.TubeType
+	}
+	var mu sync.Mutex
+	var made []opened
+	var wg sync.WaitGroup
+	for k := 0; k < nRel+nUnrel; k++ {
+		wg.Add(1)
+		rel := k < nRel
+		tt := tubes.TubeType(byte(k*7 + 3))
+		go func() {
+			defer wg.Done()
+			var t tubes.Tube
+			var err error
+			if rel {
+				var x *tubes.Reliable
+				x, err = mp.a.CreateReliableTube(tt)
+				t = x
+			} else {
+				var x *tubes.Unreliable
+				x, err = mp.a.CreateUnreliableTube(tt)
+				t = x
+			}
+			if err == nil {
+				mu.Lock()
+				made = append(made, opened{t, rel, tt})
+				mu.Unlock()
+			}
+		}()
+	}
+	time.Sleep(time.Duration(rng.Pick(100, 1000, 3000)) * time.Millisecond)
+	var acc []accepted
+	var amu sync.Mutex
+	go acceptLoop(mp.b, &acc, &amu)
+	if !bub.Within(bub.Go(wg.Wait), 2*time.Minute) {
+		c.Violate("C09:create-does-not-return", map[string]any{"family": "accept-backlog"})
+		return
+	}
+	bub.Settle(3 * time.Second)
+	mu.Lock()
+	amu.Lock()
+	defer mu.Unlock()
+	defer amu.Unlock()
+	r.Count("evaluations", int64(len(made)))
+	r.Count("tubes_opened_against_a_full_backlog", int64(len(made)))
+	r.NontrivialN(int64(len(made)))
+	offered := map[string]int{}
+	for _, a := range acc {
+		offered[fmt.Sprintf("%v/%d/%d", a.reliable, a.id, a.ttype)]++
+	}
+	for _, o := range made {
+		k := fmt.Sprintf("%v/%d/%d", o.reliable, o.t.GetID(), o.ttype)
+		switch offered[k] {
+		case 1:
+		case 0:
+			c.Violate("C09:opened-tube-never-offered-or-offered-with-other-type:accept-backlog", map[string]any{"id": o.t.GetID(), "reliable": o.reliable, "type": o.ttype, "opened": len(made), "offered": len(acc)})
+			return
+		default:
+			c.Violate("C09:tube-offered-twice:accept-backlog", map[string]any{"id": o.t.GetID(), "reliable": o.reliable, "times": offered[k]})
+			return
+		}
+	}
+	if len(acc) > len(made) {
+		c.Violate("C09:tube-offered-that-was-never-opened:accept-backlog", map[string]any{"opened": len(made), "offered": len(acc)})
+	}
 }
